@@ -7,9 +7,21 @@ PROP = "C20"
 
 def make_cases(rng, tier, n):
     cases, stats = [], {}
-    for i in range(n // 2):
+    for i in range(n // 3):
         base = gen.basic_project(rng, "old-%d" % i, tier, stats=stats, allow_inputs=False)
         keep = [b"workdir", b"workdir/inner"] if base.get("cwd") else []
+        # a chain of nested directories in one directory artifact: manifests of several depths, so that a
+        # subset conversion yields old-below-new and new-below-old
+        darts0 = [a for a in s1eval.artifacts(base) if a[1] == "d"]
+        if darts0 and rng.random() < 0.7:
+            p = rng.choice(darts0)[0]
+            for lvl in range(rng.choice([3, 4, 6])):
+                p = p + b"/lv%d" % lvl
+                base["init"].append(("dir", p))
+                base["init"].append(("file", p + b"/leaf%d.txt" % lvl, "g:%d:%d" % (rng.randrange(1000), rng.choice([0, 5, 300]))))
+                if rng.random() < 0.4:
+                    base["init"].append(("dir", p + b"/side%d" % lvl))
+                    base["init"].append(("file", p + b"/side%d/s.txt" % lvl, "g:%d:7" % rng.randrange(1000)))
         files = [e for e in base["init"] if e[0] == "file"]
         dart = [a for a in s1eval.artifacts(base) if "d" in a[1]]
         flow = rng.choice(["checkout", "status", "pushfetch", "recommit", "recommit_edit"])
@@ -31,7 +43,8 @@ def make_cases(rng, tier, n):
                 ed.append(("write", rng.choice(dart)[0] + b"/zz_added.txt", "g:8:8"))
             tail = ed + [("commit", rng.choice("lc"), []), ("status", []), ("clone", keep), ("checkout", "c", False, []), ("status", [])]
         first = ("commit", rng.choice("lc"), [])
-        for twin, conv in (("old", [("oldschema",)]), ("new", [])):
+        sel = "".join(sorted(rng.sample("0123456789abcdef", rng.choice([4, 8, 8, 12]))))
+        for twin, conv in (("old", [("oldschema",)]), ("mixed", [("oldschema", sel)]), ("new", [])):
             c = copy.deepcopy(base)
             c["id"] = "%s-%s" % (base["id"], twin)
             c["group"] = base["id"]
@@ -58,11 +71,17 @@ def twins(R, dud, drv, rng, tier, runs):
     for r in runs:
         by.setdefault(r["case"]["group"], {})[r["case"]["twin"]] = r
     for g, pair in by.items():
-        if "old" not in pair or "new" not in pair:
+        if "new" not in pair:
             continue
-        o, n = pair["old"], pair["new"]
+        for tw in ("old", "mixed"):
+            if tw in pair:
+                compare_twins(R, g + "-" + tw, pair[tw], pair["new"])
+
+
+def compare_twins(R, g, o, n):
+    if True:
         if o["error"] or n["error"]:
-            continue
+            return
         so = [s for s in o["steps"] if s["op"][0] != "oldschema"]
         sn = n["steps"]
         mixed = any(len(s["x"]) >= 1 for s in o["steps"] if s["op"][0] == "oldschema")
@@ -95,7 +114,7 @@ def twins(R, dud, drv, rng, tier, runs):
 
 def main(tier, replay=None):
     return s1eval.generic_main(PROP, tier, replay, make_cases, oracle, None, nontrivial=lambda run: True,
-                               rule="S1 twins: the same project committed once, then (old twin) every manifest of the cache rewritten in the pre-tag schema "
-                                    "bottom-up with objects re-keyed, followed by checkout / status / push+wipe+fetch+checkout / recommit / edit+recommit; "
+                               rule="S1 triplets: the same project committed once, then (old twin) every manifest / (mixed twin) a random subset of the manifests "
+                                    "of the cache rewritten in the pre-tag schema bottom-up with objects re-keyed, followed by checkout / status / push+wipe+fetch+checkout / recommit / edit+recommit; "
                                     "oracle: the old-schema twin behaves exactly like the current-schema twin (workspace, status, checksums after recommit); "
                                     "non-trivial = at least one manifest was converted", seed_salt=20, n_quick=100, n_thorough=1200, extra=twins)
